@@ -44,6 +44,19 @@ Monitors
                              1e3 m, judged with the same computed relative bounds; inputs whose bound exceeds 1e-3 are skipped
                              and counted (never generated on purpose); ZeroDivisionError from the centroid of a non-degenerate
                              polygon is a violation.
+  seq_stat / _inside / _tri: 3..6 voxels with different vertex counts alive together and sampled one after another in one process
+                             (more-vertices-smaller-area first, increasing, interleaved, random; repeated visits; optionally
+                             also as one ToroidalVoxelGrid): each call judged against the voxel's OWN area mean, all sample
+                             points inside, and the share of points in every triangle of a validated partition of the
+                             cross-section within the binomial p=2.6e-12 bound of its exact area share (a triangle that is
+                             never sampled is reported);
+  gridemis_stat / _vary    : VoxelCollection.emissivities_from_function with polynomial NON-linear functions (u^2, uv, v^2,
+                             random quadratic / cubic, quartic peak) and grid_samples in {1, 2, 10, 37}: the mean over K
+                             independent calls against the exact area mean (exact integer integration of the monomials up to
+                             degree 8 over the polygon) with the bound for K x grid_samples samples and the exact standard
+                             deviation; an estimate that is identical in all K calls AND differs from the exact mean is
+                             reported separately (deterministic => biased; no statistics involved);
+  nonlin_stat              : the same non-linear functions through voxel.emissivity_from_function.
 Sampling runs in a forked child so that a crash of the unchecked triangle lookup becomes a violation, not a dead worker.
 """
 import json
@@ -73,7 +86,8 @@ RULE = ("random polygons whose coordinates are arbitrary doubles (exact dyadic r
         "(N,M,2) arrays for grids; 'gridseq' cases: 2..10 scenegraph/activation operations on 1..24-voxel grids with a "
         "total_volume read after each; 'emisorder' cases: concave-biased polygons x {csg, mesh} x both orientations x up to 3 "
         "start vertices; 'scale' cases: 1..4 cells scaled by three powers of two 2^-40..2^20; 'wide' polygons: half-extent "
-        "1e-8..1e3 m, R 1e-6..1e4 m, conditioned so that the shoelace rounding bound stays <= 1e-4 relative. In the quick "
+        "1e-8..1e3 m, R 1e-6..1e4 m, conditioned so that the shoelace rounding bound stays <= 1e-4 relative. 'seq' cases: 3..6 voxels of 3..24 vertices sampled in 3..12 calls; 'gridemis' cases: 1..6 cells, K = 6000/"
+        "grid_samples (thorough 20000/grid_samples) calls. In the quick "
         "tier 'poly' cases with more than 8 vertices use 16 evenly spaced orderings (thorough: all). A case is non-trivial when "
         "a deciding comparison ran on a certified polygon of non-zero area (for linear emissivity: non-zero variance); "
         "distinct = distinct polygon/grid/function descriptors")
@@ -98,7 +112,8 @@ THOROUGH = dict(cases=60000, workers=16, timecap=600)
 REQUIRED = {"area": 600, "centroid": 1200, "volume": 600, "volume_self": 600, "order": 150, "grid_total": 8,
             "grid_exact": 8, "emis_const": 15, "emis_stat": 15, "emis_range": 15, "emis_inside": 20000,
             "nearrect_stat": 100, "nearrect_inside": 20000, "nearrect_order": 8, "alias_caller": 40, "alias_unchanged": 40,
-            "gridseq_total": 60, "scale_homog": 60, "emisorder_stat": 100, "emisorder_inside": 5000, "emisorder_order": 8}
+            "gridseq_total": 60, "scale_homog": 60, "emisorder_stat": 100, "emisorder_inside": 5000, "emisorder_order": 8,
+            "seq_stat": 60, "seq_inside": 50000, "seq_tri": 150, "gridemis_stat": 10, "gridemis_vary": 10, "nonlin_stat": 10}
 
 EPS = 2.0 ** -52
 PI_CODE = 3.141592653589793
@@ -377,26 +392,106 @@ def gen_case(rng, tier):
     if u < 0.04:
         shape, P = gen_nearrect_polygon(rng)           # near-rectangle quadrilaterals also through the geometry monitors
         return dict(kind="poly", cls="nearrect:" + shape, poly=P, prim="csg", max_orderings=0)
-    if u < 0.34:
+    if u < 0.30:
         cls, P = gen_polygon(rng)
         prim = "mesh" if (rng.random() < 0.12 and _mesh_ok(P)) else "csg"
         return dict(kind="poly", cls=cls, poly=P, prim=prim, max_orderings=MAX_ORDERINGS_QUICK if tier == "quick" else 0)
-    if u < 0.40:
+    if u < 0.35:
         cls, P = gen_polygon(rng, wide=True)
         return dict(kind="poly", cls="wide:" + cls, poly=P, prim="csg", max_orderings=8 if tier == "quick" else 0)
-    if u < 0.47:
+    if u < 0.41:
         return _gen_scale(rng, tier)
-    if u < 0.53:
+    if u < 0.46:
         return _gen_grid(rng, tier)
-    if u < 0.70:
+    if u < 0.60:
         return _gen_emis(rng, tier)
-    if u < 0.80:
+    if u < 0.69:
         return _gen_emisorder(rng, tier)
-    if u < 0.86:
+    if u < 0.75:
         return _gen_nearrect(rng, tier)
-    if u < 0.94:
+    if u < 0.82:
         return _gen_alias(rng, tier)
-    return _gen_gridseq(rng, tier)
+    if u < 0.88:
+        return _gen_gridseq(rng, tier)
+    if u < 0.95:
+        return _gen_seq(rng, tier)
+    return _gen_gridemis(rng, tier)
+
+
+SEQ_PATTERNS = ["more-vertices-smaller-area-first", "increasing-vertex-count", "interleaved", "random"]
+
+
+def _gen_seq(rng, tier):
+    """several voxels alive in one process, sampled one after another (state left by one call must not leak into the next)"""
+    pat = SEQ_PATTERNS[int(rng.choice(4, p=[0.4, 0.15, 0.25, 0.2]))]
+    m = int(rng.integers(3, 7))
+    polys = []
+    for _ in range(m):
+        cls = ["convex", "star", "monotone", "rectilinear", "quad", "triangle", "rectangle"][
+            int(rng.choice(7, p=[0.3, 0.25, 0.15, 0.1, 0.08, 0.07, 0.05]))]
+        polys.append(gen_polygon(rng, cls)[1])
+    nv = [len(q) for q in polys]
+    ar = [float(exact_moments(q)["A"]) for q in polys]
+    if pat == "more-vertices-smaller-area-first":
+        # vertex counts decreasing while areas increase: pair the sorted lists crosswise by rescaling about the centroid
+        order = sorted(range(m), key=lambda i: -nv[i])
+        polys = [polys[i] for i in order]
+        target = sorted(ar)
+        out = []
+        for q, a_now, a_want in zip(polys, [ar[i] for i in order], target):
+            f = math.sqrt(a_want / a_now)
+            c = np.mean(np.array(q), axis=0)
+            out.append([[float(c[0] + f * (x - c[0])), float(c[1] + f * (y - c[1]))] for x, y in q])
+        polys = [q if (min(v[0] for v in q) > 0 and certify_simple(q)[0]) else polys[i] for i, q in enumerate(out)]
+    elif pat == "increasing-vertex-count":
+        polys = [polys[i] for i in sorted(range(m), key=lambda i: nv[i])]
+    elif pat == "interleaved":
+        o = sorted(range(m), key=lambda i: nv[i])
+        polys = [polys[i] for pair in zip(o[::-1], o) for i in pair][:m]
+    steps = list(range(m))
+    for _ in range(int(rng.integers(0, m + 1))):
+        steps.append(int(rng.integers(m)))
+    prims = ["mesh" if (rng.random() < 0.2 and _mesh_ok(q)) else "csg" for q in polys]
+    return dict(kind="seq", cls=pat, polys=polys, prims=prims, steps=steps, via_grid=bool(rng.random() < 0.5),
+                fn=dict(a=float(rng.normal()), b=float(rng.normal()), c=float(rng.normal())),
+                N=int(rng.choice([10000, 30000])), Np=int(rng.choice([1500, 4000])), rs_seed=int(rng.integers(1, 2 ** 61)))
+
+
+NONLIN_TYPES = ["r2", "rz", "z2", "quadratic", "peaked", "cubic"]
+
+
+def _nonlin_coeffs(rng, ft):
+    """polynomial in local coordinates u = (r - r0)/L, v = (z - z0)/L, as [[p, q, a], ...]"""
+    if ft == "r2":
+        return [[2, 0, 1.0]]
+    if ft == "rz":
+        return [[1, 1, 1.0]]
+    if ft == "z2":
+        return [[0, 2, 1.0], [0, 0, 0.5]]
+    if ft == "quadratic":
+        return [[p_, q_, float(rng.normal())] for p_ in range(3) for q_ in range(3 - p_)]
+    if ft == "cubic":
+        return [[p_, q_, float(rng.normal())] for p_ in range(4) for q_ in range(4 - p_)]
+    # peaked: (1 - (u^2 + v^2)/rho2)^2, rho2 = 8  (|u|, |v| <= 2 on the cells)
+    r2 = 8.0
+    return [[0, 0, 1.0], [2, 0, -2 / r2], [0, 2, -2 / r2], [4, 0, 1 / r2 ** 2], [2, 2, 2 / r2 ** 2], [0, 4, 1 / r2 ** 2]]
+
+
+def _gen_gridemis(rng, tier):
+    """VoxelCollection.emissivities_from_function with non-linear functions, K independent calls per grid_samples value"""
+    m = int(rng.integers(1, 5))
+    cells = [gen_polygon(rng)[1] for _ in range(m)]
+    if rng.random() < 0.4:                                   # a regular grid patch as well
+        g = _gen_grid(rng, tier)
+        cells = g["cells"][:int(rng.integers(1, 7))]
+    A = np.array([v for q in cells for v in q])
+    r0, z0 = float(A[:, 0].mean()), float(A[:, 1].mean())
+    L = float(2.0 ** math.ceil(math.log2(max(np.abs(A[:, 0] - r0).max(), np.abs(A[:, 1] - z0).max()))))
+    ft = NONLIN_TYPES[int(rng.integers(len(NONLIN_TYPES)))]
+    gs = int(rng.choice([1, 1, 1, 2, 10, 37]))
+    total = 6000 if tier == "quick" else 20000
+    return dict(kind="gridemis", cls=ft, cells=cells, prim="csg", f=dict(r0=r0, z0=z0, L=L, coef=_nonlin_coeffs(rng, ft)),
+                gs=gs, K=max(2, total // gs), Nv=int(rng.choice([1, 2000, 20000])), rs_seed=int(rng.integers(1, 2 ** 61)))
 
 
 def _gen_scale(rng, tier):
@@ -779,6 +874,19 @@ def fixed_cases(tier):
              cells=[[[2.0 + 5e-7 * i, 5e-7 * j], [2.0 + 5e-7 * i, 5e-7 * (j + 1)], [2.0 + 5e-7 * (i + 1), 5e-7 * (j + 1)],
                      [2.0 + 5e-7 * (i + 1), 5e-7 * j]] for i in range(3) for j in range(3)]),
     ]
+    # call sequences over voxels with different vertex counts; grid-level API with non-linear functions
+    hexa = [[1.0 + 0.1 * math.cos(t * math.pi / 3), 0.1 * math.sin(t * math.pi / 3)] for t in range(6)]
+    bigp = [[2.0, 0.0], [2.0, 1.0], [3.0, 2.5], [4.0, 1.0], [4.0, 0.0]]
+    out += [
+        dict(kind="seq", cls="more-vertices-smaller-area-first", polys=[hexa, bigp, lshape, dart], prims=["csg"] * 4,
+             steps=[0, 1, 2, 3, 0, 1], via_grid=True, fn=dict(a=0.1, b=1.0, c=0.5), N=30000, Np=4000, rs_seed=31),
+        dict(kind="seq", cls="interleaved", polys=[bigp, hexa, dart, lshape, penta], prims=["csg", "mesh", "csg", "csg", "csg"],
+             steps=[1, 0, 3, 2, 4, 0], via_grid=False, fn=dict(a=0.0, b=0.0, c=1.0), N=30000, Np=4000, rs_seed=32),
+    ]
+    three = [[[1.0, 0.0], [1.0, 1.0], [3.0, 1.0], [3.0, 0.0]], [[1.0, -1.0], [2.0, 1.0], [4.0, -1.0]], bigp]
+    for gs, ft in ((1, "r2"), (1, "rz"), (1, "peaked"), (2, "quadratic"), (10, "r2")):
+        out.append(dict(kind="gridemis", cls=ft, cells=three, prim="csg", gs=gs, K=6000 // gs, Nv=2000, rs_seed=40 + gs,
+                        f=dict(r0=2.5, z0=0.5, L=2.0, coef=_nonlin_coeffs(np.random.default_rng(5), ft))))
     out += [
         dict(kind="gridseq", cls="gridseq", cells=cells[:6], prim="csg", ctor_active="all", ctor_parent=None,
              ops=[["set_active", 2], ["read"], ["set_active", "all"], ["unparent_all_voxels"], ["parent_all_voxels"],
@@ -923,6 +1031,10 @@ def run_case(case, ctx):
         return _run_scale(case, ctx)
     if kind == "emisorder":
         return _run_nearrect(case, ctx, general=True)
+    if kind == "seq":
+        return _run_seq(case, ctx)
+    if kind == "gridemis":
+        return _run_gridemis(case, ctx)
     raise ValueError("unknown case kind %r" % kind)
 
 
@@ -1677,3 +1789,320 @@ def _run_scale(case, ctx):
         ctx.close(tv, want_tot * f ** 3, "grid:total-volume-not-sum-of-true-volumes:scaled-input",
                   "ToroidalVoxelGrid.total_volume differs from the sum of the true voxel volumes (grid scaled by 2^k)",
                   atol=tol_tot * f ** 3, monitor="grid_exact", n_voxels=len(cells), **det)
+
+
+# ------------------------------------------------------------------------------------------------
+# exact polynomial integration over a polygon (integers only)
+# ------------------------------------------------------------------------------------------------
+
+def _binom_table(n):
+    C = [[0] * (n + 1) for _ in range(n + 1)]
+    for i in range(n + 1):
+        C[i][0] = 1
+        for j in range(1, i + 1):
+            C[i][j] = C[i - 1][j - 1] + (C[i - 1][j] if j <= i - 1 else 0)
+    return C
+
+
+def exact_local_moments(P, r0, z0, L, deg):
+    """E[u^p v^q] (area means, exact Fractions) for p+q <= deg over polygon P, u = (r - r0)/L, v = (z - z0)/L.
+    Integral formula: int x^p y^q dA = p! q!/(p+q+2)! sum_i c_i sum_{k<=p, l<=q} C(k+l,l) C(p+q-k-l,q-l)
+    x_{i+1}^k x_i^{p-k} y_{i+1}^l y_i^{q-l},  c_i = x_i y_{i+1} - x_{i+1} y_i (orientation divides out in the mean)."""
+    fr = [((Fraction(float(x)) - Fraction(float(r0))) / Fraction(float(L)),
+           (Fraction(float(y)) - Fraction(float(z0))) / Fraction(float(L))) for x, y in P]
+    D = 1
+    for a, b in fr:
+        D = max(D, a.denominator, b.denominator)           # powers of two
+    X = [int(a * D) for a, _ in fr]
+    Y = [int(b * D) for _, b in fr]
+    n = len(P)
+    C = _binom_table(deg + 1)
+    fact = [1]
+    for i in range(1, deg + 3):
+        fact.append(fact[-1] * i)
+    XP = [[x ** e for e in range(deg + 1)] for x in X]
+    YP = [[y ** e for e in range(deg + 1)] for y in Y]
+    cs = [X[i] * Y[(i + 1) % n] - X[(i + 1) % n] * Y[i] for i in range(n)]
+    a2 = sum(cs)
+    out = {}
+    for p_ in range(deg + 1):
+        for q_ in range(deg + 1 - p_):
+            tot = 0
+            for i in range(n):
+                j = (i + 1) % n
+                acc = 0
+                for k in range(p_ + 1):
+                    xx = XP[j][k] * XP[i][p_ - k]
+                    for l in range(q_ + 1):
+                        acc += C[k + l][l] * C[p_ + q_ - k - l][q_ - l] * xx * YP[j][l] * YP[i][q_ - l]
+                tot += cs[i] * acc
+            integral = Fraction(fact[p_] * fact[q_] * tot, fact[p_ + q_ + 2] * D ** (p_ + q_ + 2))
+            out[(p_, q_)] = integral / Fraction(a2, 2 * D * D)
+    return out
+
+
+def _poly_mul(f, g):
+    out = {}
+    for (p1, q1), a in f.items():
+        for (p2, q2), b in g.items():
+            out[(p1 + p2, q1 + q2)] = out.get((p1 + p2, q1 + q2), 0) + a * b
+    return out
+
+
+def nonlinear_stats(P, fdesc):
+    """exact area mean and standard deviation of the polynomial f over polygon P, and a bound on |f - mean|"""
+    coef = {(int(p_), int(q_)): Fraction(float(a)) for p_, q_, a in fdesc["coef"]}
+    deg = max(p_ + q_ for p_, q_ in coef)
+    mom = exact_local_moments(P, fdesc["r0"], fdesc["z0"], fdesc["L"], 2 * deg)
+    mean = sum(a * mom[k] for k, a in coef.items())
+    ef2 = sum(a * mom[k] for k, a in _poly_mul(coef, coef).items())
+    var = ef2 - mean * mean
+    V = np.asarray(P, dtype=float)
+    um = float(np.abs((V[:, 0] - fdesc["r0"]) / fdesc["L"]).max())
+    vm = float(np.abs((V[:, 1] - fdesc["z0"]) / fdesc["L"]).max())
+    dev = sum(abs(float(a)) * um ** k[0] * vm ** k[1] for k, a in coef.items() if k != (0, 0))
+    return float(mean), math.sqrt(max(float(var), 0.0)), 2.0 * dev, dev + abs(float(coef.get((0, 0), 0)))
+
+
+def _native_poly(fdesc):
+    from raysect.core.math.function.float import Arg3D
+    U = (Arg3D('x') - fdesc["r0"]) * (1.0 / fdesc["L"])
+    W = (Arg3D('z') - fdesc["z0"]) * (1.0 / fdesc["L"])
+    f = None
+    for p_, q_, a in fdesc["coef"]:
+        t = float(a)
+        if p_:
+            t = t * U ** int(p_) if p_ > 1 else t * U
+        if q_:
+            t = t * W ** int(q_) if q_ > 1 else t * W
+        f = t if f is None else f + t
+    return f
+
+
+# ------------------------------------------------------------------------------------------------
+# call sequences over several voxels; per-triangle hit counts
+# ------------------------------------------------------------------------------------------------
+
+def _triangle_partition(voxel):
+    """a triangulation of the voxel's stored polygon (Raysect's triangulate2d on the reported vertices), validated
+    exactly: the triangle areas must sum to the polygon area; returns (vertices, triangles, exact area shares) or None.
+    ANY valid partition would do for the uniformity test; this one has the best resolution for lookup defects."""
+    from raysect.core.math import triangulate2d
+    V = np.array([[p_.x, p_.y] for p_ in voxel.vertices], dtype=float)
+    T = np.asarray(triangulate2d(V))
+    fr = [(Fraction(float(x)), Fraction(float(y))) for x, y in V]
+    areas = []
+    for t in T:
+        (x1, y1), (x2, y2), (x3, y3) = fr[t[0]], fr[t[1]], fr[t[2]]
+        areas.append(abs((x2 - x1) * (y3 - y1) - (x3 - x1) * (y2 - y1)) / 2)
+    n = len(V)
+    tot = abs(sum(fr[i][0] * fr[(i + 1) % n][1] - fr[(i + 1) % n][0] * fr[i][1] for i in range(n))) / 2
+    if tot == 0 or sum(areas) != tot:
+        return None
+    return V, T, [float(a / tot) for a in areas]
+
+
+def _triangle_counts(V, T, pts, tol):
+    """number of points in each triangle (first match wins on shared edges)"""
+    x, y = pts[:, 0], pts[:, 1]
+    free = np.ones(len(pts), dtype=bool)
+    counts = []
+    for t in T:
+        (x1, y1), (x2, y2), (x3, y3) = V[t[0]], V[t[1]], V[t[2]]
+        d = (x2 - x1) * (y3 - y1) - (x3 - x1) * (y2 - y1)
+        if d == 0:
+            counts.append(0)
+            continue
+        l1 = ((x2 - x) * (y3 - y) - (x3 - x) * (y2 - y)) / d
+        l2 = ((x3 - x) * (y1 - y) - (x1 - x) * (y3 - y)) / d
+        l3 = 1.0 - l1 - l2
+        ins = free & (l1 >= -tol) & (l2 >= -tol) & (l3 >= -tol)
+        counts.append(int(ins.sum()))
+        free &= ~ins
+    return counts, int(free.sum())
+
+
+def _run_seq(case, ctx):
+    polys = [[[float(a), float(b)] for a, b in q] for q in case["polys"]]
+    ctx.cls("seq:" + case.get("cls", "?"))
+    for q in polys:
+        if not _certified(q, ctx):
+            return
+    a, b, c = float(case["fn"]["a"]), float(case["fn"]["b"]), float(case["fn"]["c"])
+    N, Np = int(case["N"]), int(case["Np"])
+    steps = [int(i) for i in case["steps"]]
+    prims = list(case["prims"])
+
+    def job():
+        from raysect.core.math.random import seed
+        from raysect.core.math.function.float import Arg3D
+        from cherab.tools.inversions import ToroidalVoxelGrid
+        fnat = a + b * Arg3D('x') + c * Arg3D('z')
+        try:
+            voxels = [_mk_voxel(q, pr) for q, pr in zip(polys, prims)]
+        except Exception as e:
+            raise _wrap_target(e)
+        parts = [_triangle_partition(v) for v in voxels]
+        seed(int(case["rs_seed"]))
+        res = []
+        for i in steps:
+            pts = []
+
+            def fpy(x, y, z):
+                pts.append((x, z))
+                return a + b * x + c * z
+            try:
+                m = voxels[i].emissivity_from_function(fnat, N)
+                mp = voxels[i].emissivity_from_function(fpy, Np)
+            except Exception as e:
+                raise _wrap_target(e)
+            A = np.array(pts, dtype=float)
+            ext = float(max(np.ptp(np.array(polys[i])[:, 0]), np.ptp(np.array(polys[i])[:, 1])))
+            bad = _outside(polys[i], A, 1e-9 * ext)
+            r = dict(voxel=i, mean=float(m), mean_py=float(mp), npts=len(pts), n_outside=int(len(bad)),
+                     first_outside=[[float(A[k, 0]), float(A[k, 1])] for k in bad[:2]])
+            if parts[i] is not None and not len(bad):
+                V, T, shares = parts[i]
+                r["counts"], r["unassigned"] = _triangle_counts(V, T, A, 1e-9)
+                r["shares"] = shares
+            res.append(r)
+        gridres = None
+        if case.get("via_grid"):
+            try:
+                grid = ToroidalVoxelGrid(polys)
+                gridres = [float(x) for x in grid.emissivities_from_function(fnat, N)]
+            except Exception as e:
+                raise _wrap_target(e)
+        return dict(steps=res, grid=gridres)
+
+    out = _in_child(job)
+    if "signal" in out:
+        ctx.viol("emissivity:sequence:sampler-crash", "child died with signal %d while sampling a sequence of voxels"
+                 % out["signal"], n_voxels=len(polys))
+        return
+    if "exc" in out:
+        _report_child_exception(out, ctx, "emissivity_from_function")
+        return
+    stats = []
+    for q in polys:
+        ex = exact_moments(q)
+        V = np.asarray(q, dtype=float)
+        fv = a + b * V[:, 0] + c * V[:, 1]
+        mu = a + b * float(ex["cx"]) + c * float(ex["cy"])
+        var = b * b * float(ex["vxx"]) + c * c * float(ex["vyy"]) + 2 * b * c * float(ex["vxy"])
+        stats.append((mu, math.sqrt(max(var, 0.0)), float(fv.max() - fv.min()), float(np.abs(fv).max() + abs(a))))
+    ctx.nontrivial()
+    prev_tri = None
+    for k, r in enumerate(out["ok"]["steps"]):
+        i = r["voxel"]
+        mu, sigma, width, fmax = stats[i]
+        ntri = len(polys[i]) - 2
+        hist = "first-call" if prev_tri is None else ("previous-voxel-more-triangles" if prev_tri > ntri else
+                                                      "previous-voxel-not-more-triangles")
+        det = dict(step=k, voxel=i, n_vertices=len(polys[i]), previous_triangles=prev_tri, pattern=case.get("cls"))
+        prev_tri = ntri
+        ctx.mon("seq_inside", r["npts"])
+        if r["n_outside"]:
+            ctx.viol("emissivity:sequence:sample-outside-cross-section:" + hist,
+                     "in a sequence of calls on several voxels emissivity_from_function evaluated the function outside the "
+                     "cross-section of the voxel being sampled", n_outside=r["n_outside"], of=r["npts"],
+                     first_outside=r["first_outside"], **det)
+        if sigma > 0:
+            ctx.close(r["mean"], mu, "emissivity:sequence:linear-mean-biased:" + hist,
+                      "in a sequence of calls on several voxels the sampled mean of a linear emissivity deviates from the "
+                      "voxel's own area mean f(centroid) beyond the p=2.6e-12 bound",
+                      atol=_bernstein(sigma, width, N) + max(N, 64) * EPS * fmax, monitor="seq_stat", sigma=sigma, **det)
+            ctx.close(r["mean_py"], mu, "emissivity:sequence:linear-mean-biased:" + hist,
+                      "in a sequence of calls on several voxels the sampled mean of a linear emissivity (Python callable) "
+                      "deviates from the voxel's own area mean beyond the p=2.6e-12 bound",
+                      atol=_bernstein(sigma, width, Np) + max(Np, 64) * EPS * fmax, monitor="seq_stat", sigma=sigma, **det)
+        if "counts" in r and r["npts"]:
+            n_s = r["npts"]
+            worst, wdet = 0.0, None
+            for t, (cnt, sh) in enumerate(zip(r["counts"], r["shares"])):
+                tol = _bernstein(math.sqrt(sh * (1 - sh)), 1.0, n_s) + (r["unassigned"] + 1.0) / n_s
+                ratio = abs(cnt / n_s - sh) / tol
+                if ratio > worst:
+                    worst, wdet = ratio, dict(triangle=t, sample_share=cnt / n_s, area_share=sh, tol=tol)
+            ctx.mon("seq_tri", len(r["counts"]))
+            ctx.margin("seq_tri", worst)
+            if worst > 1.0:
+                ctx.viol("emissivity:sequence:triangle-sample-share-not-area-share:" + hist,
+                         "the share of sample points falling into one triangle of the cross-section differs from its area "
+                         "share beyond the binomial p=2.6e-12 bound (sampling is not uniform over the cross-section)",
+                         never_sampled=int(sum(1 for cnt, sh in zip(r["counts"], r["shares"]) if cnt == 0 and sh > 0)),
+                         n_triangles=len(r["counts"]), **dict(det, **wdet))
+    if out["ok"]["grid"] is not None:
+        for i, m in enumerate(out["ok"]["grid"]):
+            mu, sigma, width, fmax = stats[i]
+            if sigma > 0:
+                ctx.close(m, mu, "emissivity:sequence:grid-linear-mean-biased",
+                          "emissivities_from_function over a grid of voxels with different vertex counts: the sampled mean of "
+                          "a linear emissivity deviates from the voxel's own area mean beyond the p=2.6e-12 bound",
+                          atol=_bernstein(sigma, width, N) + max(N, 64) * EPS * fmax, monitor="seq_stat", voxel=i,
+                          n_vertices=len(polys[i]), pattern=case.get("cls"))
+
+
+# ------------------------------------------------------------------------------------------------
+# grid-level API with non-linear functions, many independent calls
+# ------------------------------------------------------------------------------------------------
+
+def _run_gridemis(case, ctx):
+    cells = [[[float(a), float(b)] for a, b in q] for q in case["cells"]]
+    fdesc = case["f"]
+    gs, K, Nv = int(case["gs"]), int(case["K"]), int(case["Nv"])
+    ctx.cls("gridemis:" + case.get("cls", "?"))
+    ctx.cls("gridemis-samples:%d" % gs)
+    for q in cells:
+        if not _certified(q, ctx):
+            return
+
+    def job():
+        from raysect.core.math.random import seed
+        from cherab.tools.inversions import ToroidalVoxelGrid
+        f = _native_poly(fdesc)
+        try:
+            grid = ToroidalVoxelGrid(cells, primitive_type=case.get("prim", "csg"))
+            seed(int(case["rs_seed"]))
+            first = np.array(grid.emissivities_from_function(f, gs), dtype=float)
+            acc = first.copy()
+            varies = np.zeros(len(cells), dtype=bool)
+            for _ in range(K - 1):
+                e = np.asarray(grid.emissivities_from_function(f, gs), dtype=float)
+                acc += e
+                varies |= (e != first)
+            vox = [float(v.emissivity_from_function(f, Nv)) for v in grid]
+        except Exception as e:
+            raise _wrap_target(e)
+        return dict(mean=[float(x) for x in acc / K], first=[float(x) for x in first], varies=[bool(x) for x in varies],
+                    vox=vox)
+
+    out = _in_child(job)
+    if "signal" in out:
+        ctx.viol("emissivity:grid:sampler-crash", "child died with signal %d inside emissivities_from_function" % out["signal"])
+        return
+    if "exc" in out:
+        _report_child_exception(out, ctx, "emissivities_from_function")
+        return
+    r = out["ok"]
+    ctx.nontrivial()
+    for i, q in enumerate(cells):
+        mu, sigma, width, fmax = nonlinear_stats(q, fdesc)
+        det = dict(voxel=i, n_vertices=len(q), grid_samples=gs, calls=K, function=case.get("cls"), sigma=sigma)
+        if sigma <= 1e-12 * fmax:
+            ctx.skip("function is constant over the cell to rounding")
+            continue
+        rnd = 1e-9 * fmax                 # evaluation of the polynomial in doubles
+        ctx.close(r["mean"][i], mu, "emissivity:grid:mean-of-estimates-biased:grid_samples-%s" % ("1" if gs == 1 else "2+"),
+                  "the mean over many independent calls of VoxelCollection.emissivities_from_function deviates from the exact "
+                  "area mean of a non-linear function beyond the p=2.6e-12 bound (the estimate is biased)",
+                  atol=_bernstein(sigma, width, K * gs) + rnd, monitor="gridemis_stat", **det)
+        ctx.mon("gridemis_vary")
+        if not r["varies"][i] and abs(r["first"][i] - mu) > rnd + 1e-9 * abs(mu):
+            ctx.viol("emissivity:grid:estimate-deterministic-and-not-the-area-mean:grid_samples-%s" % ("1" if gs == 1 else "2+"),
+                     "all %d calls of emissivities_from_function returned the identical value for a non-constant function, and "
+                     "that value is not the exact area mean: a deterministic estimate cannot be unbiased" % K,
+                     value=r["first"][i], area_mean=mu, **det)
+        ctx.close(r["vox"][i], mu, "emissivity:nonlinear-mean-biased",
+                  "voxel.emissivity_from_function of a non-linear function deviates from the exact area mean beyond the "
+                  "p=2.6e-12 bound", atol=_bernstein(sigma, width, Nv) + rnd, monitor="nonlin_stat", N=Nv, **det)
